@@ -386,15 +386,18 @@ def register_generate_inner(reg):
 
         reg.models[f"{D}:Samplable.sampleAll"] = sample_all
 
+        noise_py = eng.choose(2, "checker draws from random?")
+        noise_np = eng.choose(2, "checker draws from numpy.random?")
+
         def check_requirements(sample):
             rec = attempts[-1] if attempts else None
             log.append(("check", len(attempts) - 1, sample, py.state(), np_.state()))
             if rec is not None and sample is rec["sample"]:
                 rec["checked"] += 1
             who[0] = "checker"
-            for _ in range(eng.choose(2, "checker draws from random?")):
+            for _ in range(noise_py):
                 py.draw(I, "checker")
-            for _ in range(eng.choose(2, "checker draws from numpy.random?")):
+            for _ in range(noise_np):
                 np_.draw(I, "checker")
             who[0] = "generator"
             verdict = PObj("Requirement", tag="violated requirement") if eng.choose(2, "a requirement is violated?") == 1 else None
